@@ -21,8 +21,8 @@ from dataclasses import dataclass, field
 ROOT = os.path.dirname(os.path.dirname(os.path.abspath(__file__)))
 REPO = os.environ.get("VERIF_REPO", "/repo")
 CACHE = os.path.join(ROOT, ".cache")
-WORK = os.path.join(ROOT, "work")
-EVIDENCE = os.path.join(ROOT, "evidence")
+WORK = os.environ.get("VERIF_WORK", os.path.join(ROOT, "work"))
+EVIDENCE = os.environ.get("VERIF_EVIDENCE", os.path.join(ROOT, "evidence"))
 PY = "/opt/veriftools/pyvenv/bin/python"
 NCPU = max(2, min(16, os.cpu_count() or 4))
 
@@ -76,7 +76,7 @@ def build_yardl(race: bool = False, srcdir: str | None = None, tag: str = "") ->
     """Builds the yardl CLI from the current working tree of /repo with the
     `verif` build tag (hooks on). Go's build cache makes this ~1 s when nothing
     changed; a changed tree is always rebuilt."""
-    key = ("race" if race else "plain") + tag
+    key = ("race" if race else "plain") + tag + ("" if REPO == "/repo" else "-" + sha(REPO)[:8])
     with _build_lock:
         if key in _built:
             return _built[key]
